@@ -272,6 +272,18 @@ def _judge(ctx, case, r, result):
                             ev=_strip(ev)))
         return
     bad = ev[matched]
+    cfg = case["cfg"]
+    if (cfg.get("silent") is not None and cfg["rw"][cfg["silent"]]
+            and why == [["task ended", "error:EtherCatError"]]):
+        # A terminal the group asked to go OPERATIONAL has dropped off the bus, and the request back to
+        # SAFE-OPERATIONAL in the clean-up is answered by nobody: the task ends with that bus error instead of
+        # cancelled, everything else is released.  The property quantifies over cancellation points with working
+        # terminals; a bus failure during the clean-up IS another error, so this is counted, not judged.  (The
+        # silent READ-ONLY terminal, which the clean-up has nothing to say to, stays judged.)
+        obs = ctx.extra.setdefault("observations", {})
+        k = "a writer terminal silent during the clean-up: task ends with EtherCatError, resources released"
+        obs[k] = obs.get(k, 0) + 1
+        return
     fail = dict(case,
                 n_cancels=len(cancels),
                 cancel_at=[[dict(func=w["func"], line=w["line"], stmt=w["stmt"]) for w in c.get("at", [])]
